@@ -11,6 +11,7 @@ import (
 	"io"
 	"strings"
 	"sync"
+	"sync/atomic"
 	"time"
 
 	"github.com/docker/docker/api/types"
@@ -140,7 +141,10 @@ func (d *Daemon) ContainerList(_ context.Context, opts container.ListOptions) ([
 	if d.ListErr {
 		return nil, ErrInjected
 	}
-	if wave < len(d.Waves) && d.Waves[wave] > 1 {
+	if gatingOff.Load() {
+		d.wave = -1
+		d.scheduleBroken = true
+	} else if wave < len(d.Waves) && d.Waves[wave] > 1 {
 		d.wave = wave
 		d.pending = nil
 		go d.schedule(wave, d.Waves[wave])
@@ -183,10 +187,20 @@ func (d *Daemon) ContainerList(_ context.Context, opts container.ListOptions) ([
 	return out, nil
 }
 
+// gatingOff is set for the rest of the process once a wave did not fill up: the code under test
+// does not issue all ContainerLogs calls of a selection concurrently (a worker limit, sequential
+// opening - neither is forbidden by any property), so the completion order cannot be owned and
+// waiting for it again would only cost time. Reports carry ScheduleBroken so that the checks can
+// say so in their statistics.
+var gatingOff atomic.Bool
+
+// GatingOff tells whether completion-order gating was given up in this process.
+func GatingOff() bool { return gatingOff.Load() }
+
 // schedule waits until n calls of the wave have arrived, then lets them complete one at a
 // time in the planned order.
 func (d *Daemon) schedule(wave, n int) {
-	deadline := time.Now().Add(5 * time.Second)
+	deadline := time.Now().Add(2 * time.Second)
 	for {
 		d.mu.Lock()
 		if d.wave != wave {
@@ -202,6 +216,7 @@ func (d *Daemon) schedule(wave, n int) {
 			d.mu.Lock()
 			d.scheduleBroken = true
 			d.mu.Unlock()
+			gatingOff.Store(true)
 			break
 		}
 		time.Sleep(50 * time.Microsecond)
